@@ -263,3 +263,63 @@ PROPS["C18"] = {
                  "order independence by characterisation) + differential correspondence on materialised directory layouts "
                  "for all source permutations + oracles on the real outputs",
 }
+
+# Proposed block for tools/qvconfig.py (written by the C15 helper; not applied).
+PROPS["C15"] = {
+    "gen": [],
+    "lean": ["QV.Props.C15"],
+    "streams": ["c15"],
+    "rule": "every case runs the REAL `qmluic generate-ui` binary (built by the stream's constructor from /repo's working tree "
+            "into .work/cli-target under a file lock) in a fresh directory below $TMPDIR. cli-paths/spec-cli-paths: one source "
+            "path shape x --output-directory shape x --no-dynamic-binding x --no-lowercase-file-name; refusal / created file "
+            "names compared with the Lean model (kind=model) and with Spec.Fs.specRefused/specNames (kind=spec). cli-hist: "
+            "1-3 sources, 2-5 edit/regenerate steps (content edits, failing edits, removed outputs, stale outputs, blocking "
+            "file/directory, missing/directory sources); per gen step the exit-status class, the strace'd sequence of successful "
+            "mkdir/open(O_CREAT)/write/fchmod/rename syscalls, the set of files whose inode/mtime/size changed and the final tree "
+            "(content classes) must equal the model's trace and abstract file system (kind=model). cli-rerun-oracle: after every "
+            "gen step without I/O error the CLI is run again and must perform no file operation and change no inode/mtime "
+            "(kind=oracle). cli-kill / cli-kill-oracle: SIGKILL injected (strace inject) at EVERY state-changing syscall of the "
+            "last gen step; the set of surviving trees must equal the model's states after every trace prefix (kind=model) and "
+            "each surviving file must hold its complete old or complete new content, other residue = one .tmp* file next to an "
+            "output (kind=oracle). distinct = distinct request lines",
+    "exhaustive_note": "kill points are exhaustive at syscall granularity for each kill history (every mkdir/open(O_CREAT)/write/"
+                       "fchmod/rename of the run); path shapes x options are a fixed 28 x 8 x 4 grid (thorough: complete, quick: a third)",
+    "trusted_base": [
+        "hand-written model QV.Model.Cli of src/main.rs (generate_ui, generate_ui_file, with_output_file), qtname.rs FileNameRules, "
+        "qmldir.rs is_qml_file and of the std/camino/tempfile functions they call (components, file_stem, with_file_name, join, "
+        "create_dir_all, NamedTempFile::new_in + persist); tied by the c15 stream",
+        "QV.Spec.Fs: abstract file system (Path -> Option Node), five ops, rename is one atomic step, CrashState = any trace prefix "
+        "or a partially executed write",
+        "strace 6.1 (syscall log, inject=...:signal=KILL:when=N), the harness's canonicalisation of paths and temp names",
+        "translation results (ui/header bytes) are parameters of the model; content classes are identified by reference runs of the same binary",
+    ],
+    "assumptions": [
+        "rename(2) replaces the destination atomically; a SIGKILLed process leaves exactly the effects of its completed syscalls",
+        "no claim about durability after power loss (no fsync is issued), permissions/ownership, symbolic links, or aliasing of "
+        "different spellings through `..`",
+        "tempfile picks names `.tmp` + characters other than '.' and creates them with O_EXCL (checked on every traced run: `.tmp` + 6 alphanumerics)",
+        "doc.type_name() is the file stem of the source path (the source is not reached through a symlink of another name)",
+        "uigen is deterministic: unchanged inputs give byte-identical ui/header (C08)",
+        "rerun_noop holds only if no two sources share an output path with different contents: refuted in general "
+        "(Foo.qml + foo.qml -> foo.ui, finding, corpus/C15/case_collision.c15.req)",
+        "after a failed persist (destination is a directory) the temp file is left behind: process::exit runs no destructor "
+        "(modelled as it is; property text is silent on failing runs)",
+    ],
+    "level_text": "proof, PARTIAL BY NATURE (OS behaviour is assumed, one clause refuted): over the abstract file system, for ALL "
+                  "sources, options, temp names and initial states: paths_correct/names_documented (exactly x.ui and, unless "
+                  "--no-dynamic-binding, uisupport_x.h, ASCII-lower-cased stem unless --no-lowercase-file-name, beside the source "
+                  "or at join(outdir, dir)); refusal_exact/refusal_on_text (with -O a run is refused iff some source has a RootDir or "
+                  "ParentDir component = text starts with '/' or has a '..' segment; a refused run performs no op); no_escape (every "
+                  "created/written/renamed path is outdir followed by >=1 Normal components; the only other ops are mkdirs of outdir "
+                  "and its ancestors); crash_atomic/output_old_or_new (at every prefix of the trace and inside any write, each path is "
+                  "untouched, or holds the COMPLETE new content planned for exactly that path, or is a .tmp* sibling of an output, or "
+                  "is a newly created ancestor directory); rerun_noop_partial (second run = empty trace, same status, whenever the "
+                  "first run had no I/O error and outputs do not collide); rerun_noop_refuted: the unconditional clause is false "
+                  "(case-colliding sources), replayed on the real binary.",
+    "level_note": "partial: (1) rename atomicity, kill semantics, durability, permissions, symlinks are assumptions the model cannot "
+                  "exhibit; they are exercised (not proved) by SIGKILL injection at every state-changing syscall; (2) the re-run "
+                  "clause is refuted for sources whose lower-cased names collide (finding; proposed fix in .work/C15.fix.diff). "
+                  "trusted: Lean kernel; the hand-written model tied by trace/tree/exit-status equality on the real binary",
+    "technique": "Lean 4 proof over an abstract file system (op-trace model of the CLI shell, invariant over all crash states) + "
+                 "differential correspondence on the real binary (strace syscall traces, inode/mtime, exhaustive SIGKILL injection)",
+}
